@@ -223,7 +223,8 @@ theorem prefix_callbacks (hn : r.n ≠ 0)
           · cases hb : r.hasD with | true => rfl | false => exact absurd ⟨a, hb⟩ h2
           · cases hb : r.hasF with | true => rfl | false => exact absurd ⟨a, hb⟩ h3
   simp [afterMerge, frontSteps, runSteps, runStep, hget, TypedVals.get, TypedVals.val, Kw.ty, convert, Val.ty, hn,
-    runCheck, readAll, bEnv, numView, Val.num?, Pred.ty, Pred.holds, Pred.params, BExpr.eval, BExpr.isInt, BExpr.params, hc,
+    runCheck, readAll, bEnv, numView, Val.num?, Pred.ty, Pred.holds, Pred.params, Pred.kind, Pred.lower, Pred.upper, predBody,
+    PBody.eval, PAtom.eval, Cmp.holds, BExpr.eval, BExpr.isInt, BExpr.params, hc,
     Rat.intCast_natCast, hd, Traits.needs, Request.has, M.ite_apply, errS, errT]
   by_cases h1 : (t.meth Kw.method).traits.needsKernel = true ∧ r.hasK = false
   · simp [h1]
